@@ -61,7 +61,7 @@ def h_nli_sparse(ctx, method, computed):
 
 
 def jobs(tier):
-    ks = [1, 2, 3] if tier == 'quick' else [1, 2, 3, 4]
+    ks = [1, 2, 3] if tier == 'quick' else [1, 2, 3, 4, 5]
     P = ('C02',)
     js = []
     for k in ks[1:]:
